@@ -53,7 +53,19 @@ def gen_case(rng, chk, mode, explicit, as_fraction, tname=None):
     amount = num(x, "F" if as_fraction else "D")
     gq = num(g_amount, "F" if dec_str(g_amount) is None else
              rng.choice(["D", "F"]))
-    steps = [{"id": "q", "k": "q", "e": Q(amount, u)},
+    qe = Q(amount, u)
+    if tname != "DataVolume" and rng.random() < 0.2:
+        # the same quantity as the result of an operation (amounts then
+        # come as fractions with large terms, or as long decimals)
+        qe = rng.choice([
+            OP("/", Q(num(3 * x), u), ["i", 3]),
+            OP("+", Q(num(x - F(7, 3)), u), Q(num(F(7, 3)), u)),
+            OP("*", Q(num(x / 7), u), ["i", 7]),
+            ["un", "neg", Q(num(-x), u)]])
+        computed_operand = True
+    else:
+        computed_operand = False
+    steps = [{"id": "q", "k": "q", "e": qe},
              {"id": "g", "k": "g", "e": Q(gq, qu)}]
     call = {"k": "r", "e": M(V("q"), "quantize", V("g"),
                              *([MODE(mode)] if explicit else []))}
@@ -86,6 +98,8 @@ def gen_case(rng, chk, mode, explicit, as_fraction, tname=None):
         chk.count("%s|%s|%s|%s" % (mode, "F" if q["at"] == "Fraction" else "D",
                                    "tie" if tie else "notie", sign))
         chk.count("explicit" if explicit else "default")
+        if computed_operand:
+            chk.count("quantities that are results of operations")
         if tie and -1 <= xs / gs <= 1:
             chk.count("zero-corner-tie|%s|%s" % (
                 mode, "F" if q["at"] == "Fraction" else "D"))
